@@ -21,7 +21,11 @@ RULE = (
     "reference (models/dummy_ref.py evaluated with the TRAINING levels): FactorEncodingError iff a factor's kind "
     "changed; otherwise names == the spec's names, every row = the coding row of its level (all-zero for a level "
     "not seen at fit time), and a DataMismatchWarning iff an unseen level occurs.  The second application must "
-    "equal what the same frame gives on a freshly fitted spec.  Non-trivial = the follow-up loses a level, gains a "
+    "equal what the same frame gives on a freshly fitted spec.  Sub-check 'representations': the same depth-1 "
+    "oracle with the training column given as object / str / category (sorted or reversed declared order) and the "
+    "follow-up column as str / string[pyarrow] / category whose declared categories are the values present, the "
+    "trained levels plus the new ones, the reversed union, or the union plus a never-occurring extra category -- the "
+    "recorded levels must govern whatever the follow-up column declares.  Non-trivial = the follow-up loses a level, gains a "
     "level or changes kind relative to the training column (counted per application)."
 )
 ASSUMPTIONS = [
@@ -100,9 +104,10 @@ def followup(tr, ev):
     return frame, rows
 
 
-def ref_columns(formula, tr, efr):
+def ref_columns(formula, tr, efr, levels=None):
+    """levels: the fit-time levels of A when they are not the sorted training values (categorical-dtype training)"""
     n = len(tr)
-    LA, LB = R.sorted_levels(tr), R.sorted_levels(TRAIN_B[:n])
+    LA, LB = (list(levels) if levels is not None else R.sorted_levels(tr)), R.sorted_levels(TRAIN_B[:n])
     fA, fB, fa = R.Factor("A", "A", "cat", LA), R.Factor("B", "B", "cat", LB), R.Factor("a", "a", "num")
     if formula == "A":
         return R.design("f1", fA, full_rank=efr)
@@ -121,7 +126,7 @@ def ref_columns(formula, tr, efr):
     raise AssertionError(formula)
 
 
-def expectation(formula, tr, efr, ev, rows):
+def expectation(formula, tr, efr, ev, rows, levels=None):
     """-> ('ERR',) | ('OK', names, matrix, unseen: bool)  and a non-triviality flag"""
     col, kind, vec = ev
     trained = set(tr)
@@ -130,11 +135,11 @@ def expectation(formula, tr, efr, ev, rows):
             return ("ERR",), True
         unseen = any(v not in trained for v in vec)
         absent = any(l not in vec for l in trained)
-        names, mat = R.evaluate(ref_columns(formula, tr, efr), rows)
+        names, mat = R.evaluate(ref_columns(formula, tr, efr, levels), rows)
         return ("OK", names, mat, unseen), (unseen or absent)
     if kind == "text":
         return ("ERR",), True
-    names, mat = R.evaluate(ref_columns(formula, tr, efr), rows)
+    names, mat = R.evaluate(ref_columns(formula, tr, efr, levels), rows)
     return ("OK", names, mat, False), False
 
 
@@ -284,6 +289,101 @@ def drv_followup(c, ctx, col):
         col.count("warning-without-unseen-level (not forbidden)")
 
 
+# ---------------------------------------------------------------------------------------------------------------
+# the same column arriving in every categorical representation
+
+TRAIN_REPRS = ["object", "category(reversed)", "str", "category(sorted)"]
+FOLLOW_REPRS = ["str", "category(present)", "category(trained+present)", "category(reversed union)",
+                "category(union+extra)", "string[pyarrow]", "object"]
+A_FORMULAS = [f for f in FORMULAS if "A" in VARIES[f]]
+
+
+def fit_levels(tr, train_repr):
+    """levels a fit must record: text -> sorted values; categorical dtype -> its declared order"""
+    return sorted(set(tr), reverse=(train_repr == "category(reversed)"))
+
+
+def a_column(values, representation, levels):
+    """The text values `values` as a pandas column in the given representation.  Every categorical variant declares
+    all values that occur (so no cell becomes missing); what varies is which other categories are declared, and in
+    which order -- none of which may matter when a recorded spec is applied."""
+    if representation == "object":
+        return pd.Series(values, dtype=object)
+    if representation == "str":
+        return pd.Series(values, dtype="str")
+    if representation == "string[pyarrow]":
+        return pd.Series(values, dtype="string[pyarrow]")
+    if representation == "category(present)":      # what .astype("category") gives: the sorted values that occur
+        return pd.Series(values, dtype=object).astype("category")
+    if representation in ("category(sorted)", "category(reversed)"):   # training columns
+        return pd.Series(pd.Categorical(values, categories=fit_levels(values, representation)))
+    union = list(levels) + sorted(set(values) - set(levels))
+    if representation == "category(trained+present)":
+        cats = union
+    elif representation == "category(reversed union)":
+        cats = sorted(union, reverse=True)
+    elif representation == "category(union+extra)":  # 'v' is declared but never occurs
+        cats = sorted(union) + ["v"]
+    else:
+        raise AssertionError(representation)
+    return pd.Series(pd.Categorical(values, categories=cats))
+
+
+def frame_with(Acol, B, a):
+    return pd.DataFrame({"A": Acol, "B": pd.Series(B, dtype=object), "a": pd.Series(a, dtype="float64")})
+
+
+def drv_representations(c, ctx, col):
+    """depth 1, the follow-up (and the training) column in every representation pandas offers for text /
+    categorical data: the recorded levels must govern, whatever the follow-up column declares"""
+    from formulaic import model_matrix
+
+    formula = c.pick(A_FORMULAS)
+    efr = not c.flag()
+    out = c.pick(ctx["outputs"])
+    tr = c.pick(ctx["trainings"])
+    train_repr = c.pick(ctx["train_reprs"])
+    follow_repr = c.pick(ctx["follow_reprs"])
+    ev = c.pick(ctx["events"])
+    n, vec = len(tr), ev[2]
+    levels = fit_levels(tr, train_repr)
+    spec = model_matrix(formula, frame_with(a_column(tr, train_repr, levels), TRAIN_B[:n], TRAIN_a[:n]),
+                        ensure_full_rank=efr, output=out).model_spec
+    train_names = [str(x) for x in spec.column_names]
+    ref_names, _ = R.evaluate(ref_columns(formula, tr, efr, levels), [])
+    if train_names != ref_names:
+        col.count("fit-structure-differs-from-reference (skipped)")
+        raise Skip()
+    col.state(spec_digest(spec))
+    m = len(vec)
+    B = [TRAIN_B[:n][i % n] for i in range(m)]
+    rows = [{"A": vec[i], "B": B[i], "a": FOLLOW_a[i]} for i in range(m)]
+    frame = frame_with(a_column(vec, follow_repr, levels), B, FOLLOW_a[:m])
+    want, nontrivial = expectation(formula, tr, efr, ev, rows, levels)
+    outcome = apply_spec(spec, frame)
+    if nontrivial or follow_repr != train_repr:
+        col.interesting()
+    declared = list(frame["A"].dtype.categories) if isinstance(frame["A"].dtype, pd.CategoricalDtype) else None
+    col.sample({"formula": formula, "ensure_full_rank": efr, "output": out, "train_A": tr, "train_as": train_repr,
+                "followup_A": vec, "followup_as": follow_repr, "followup_declared_categories": declared})
+    sig = judge(outcome, want, train_names)
+    key = ("representation :: %s efr=%s out=%s train=%r as %s apply A<-%r as %s"
+           % (formula, efr, out, tr, train_repr, vec, follow_repr))
+    if sig:
+        col.count("where[%s | %s efr=%s train as %s, follow-up as %s]" % (sig, formula, efr, train_repr, follow_repr))
+        col.violation(key, {"formula": formula, "ensure_full_rank": efr, "output": out, "train_A": tr,
+                            "train_as": train_repr, "fit_levels": levels, "followup_A": vec, "followup_as": follow_repr,
+                            "followup_declared_categories": declared, "training_columns": train_names,
+                            "got": outcome, "want": want,
+                            "repro": "ms = formulaic.model_matrix(%r, DataFrame({'A': <%r as %s>, 'B': O(%r), 'a': %r}), "
+                                     "ensure_full_rank=%r, output=%r).model_spec; ms.get_model_matrix(DataFrame({'A': "
+                                     "<%r as %s, categories %r>, 'B': O(%r), 'a': %r}))"
+                                     % (formula, tr, train_repr, TRAIN_B[:n], TRAIN_a[:n], efr, out, vec, follow_repr,
+                                        declared, B, FOLLOW_a[:m])}, sig=sig)
+        return
+    col.count("agree:" + ("unseen-level" if want[3] else "compatible"))
+
+
 def drv_history(c, ctx, col):
     """depth 2: fit, apply follow-up 1, apply follow-up 2; the second must behave as if it were the first"""
     formula, efr, out, tr = choose_config(c, ctx)
@@ -398,6 +498,16 @@ def subchecks(tier, seed):
     selftest()
     f, h = contexts(tier, seed)
     subs = [Sub("followup", drv_followup, f, shard_depth=4, bounds=describe(f))]
+    quick = tier == "quick"
+    r = {"outputs": ["pandas"] if quick else ["pandas", "sparse"],
+         "trainings": [["y", "x"], ["z", "y", "x"]] if quick else [["y", "x"], ["z", "y"], ["z", "y", "x"]],
+         "train_reprs": TRAIN_REPRS[:2] if quick else TRAIN_REPRS,
+         "follow_reprs": FOLLOW_REPRS[:5] if quick else FOLLOW_REPRS,
+         "events": text_events("A", "xyzw", 2)}
+    subs.append(Sub("representations", drv_representations, r, shard_depth=5,
+                    bounds={"formulas": A_FORMULAS, "outputs": r["outputs"], "training_A_columns": r["trainings"],
+                            "training_representations": r["train_reprs"], "followup_representations": r["follow_reprs"],
+                            "followup_A": "every vector of length <= 2 over {x,y,z,w}", "ensure_full_rank": [True, False]}))
     for hc in h:
         b = describe(hc)
         if hc["name"] == "history-seed-slice":
